@@ -61,14 +61,14 @@ SPEC = dict(
         level_note='Trusted: Lean kernel (propext, Classical.choice, Quot.sound only); the hand-written models Model/Address.lean and '
                    'Model/Base64.lean (str.split, int(str[,16]), bytes.fromhex, str(int), bytes.hex, int.to_bytes/from_bytes, base64/'
                    'binascii are modelled by hand for ASCII text) - tied to the library only by sampled differential correspondence '
-                   '(~70k model requests quick, ~6M thorough: every text produced, every parse result, all 3024 substitutions of 20/2000 '
+                   '(~150k model requests quick, ~6M thorough: every text produced, every parse result, all 3024 substitutions of 40/2000 '
                    'addresses, lenient and malformed inputs); crc16 itself is the C18 translation of crc.py (re-proved each run).',
         technique='Lean 4 proof (hand model + translated CRC) + differential correspondence with the library + independent format oracle',
     ),
     translators=[],
     design_ref='DESIGN.md §6 C13',
     rule='addresses: wc in {-128,-1,0,1,127} u random in -128..127, hash in {00..,ff..,random 32 bytes}; each rendered in 8 friendly variants '
-         '+ raw and parsed back; all 48x63 substitutions for 20 (quick) / 2000 (thorough) friendly texts; lenient/malformed texts; '
+         '+ raw and parsed back; all 48x63 substitutions for 40 (quick) / 2000 (thorough) friendly texts; lenient/malformed texts; '
          'distinct = distinct (operation, address, variant or text); non-trivial = every case except the empty text',
     trusted_base=['Model/Address.lean + Model/Base64.lean mirror address.py and the used part of base64/binascii/int()/bytes.fromhex by hand (ASCII texts)',
                   'Model.crc16 = translated crc.py (C18 tie)',
@@ -315,7 +315,7 @@ def addresses(ctx, n_random):
 def run(ctx):
     rng = ctx.rng
     # 1. all text forms of structured + random addresses
-    addrs = list(addresses(ctx, ctx.n(150, 3000)))
+    addrs = list(addresses(ctx, ctx.n(400, 3000)))
     for wc, hp in addrs:
         check_addr(ctx, wc, hp)
     # 2. every workchain byte once
@@ -342,7 +342,7 @@ def run(ctx):
             wc2, h2 = rng.choice(addrs)
         check_pair(ctx, wc1, h1, wc2, h2)
     # 5. ALL 48 x 63 substitutions
-    nsub = ctx.n(20, 2000)
+    nsub = ctx.n(40, 2000)
     for k in range(nsub):
         if k < 8:
             wc, hp = rng.choice([-128, -1, 0, 1, 127]), rng.choice([bytes(32), b'\xff' * 32, rng.randbytes(32)])
@@ -351,7 +351,7 @@ def run(ctx):
         url, b, t = VARIANTS[k % 8]
         check_subst(ctx, wc, hp, url, b, t)
     # 6. lenient / malformed texts (correspondence of the two parsers)
-    for k in range(ctx.n(12, 150)):
+    for k in range(ctx.n(30, 150)):
         wc, hp = rng.choice(addrs)
         for txt in odd_texts(ctx, rng, wc, hp):
             check_text(ctx, txt)
